@@ -26,6 +26,7 @@ func (c *Ctx) ruleTypedNilError(rule string) {
 	for _, f := range c.libFns() {
 		pk := f.Pkg
 		fc := c.cfgOf(f)
+		litCFGs := map[*ast.FuncLit]*funcCFG{}
 		perFn := 0
 		inspectWithStack(f.Decl.Body, func(nd ast.Node, stack []ast.Node) bool {
 			ret, ok := nd.(*ast.ReturnStmt)
@@ -34,11 +35,19 @@ func (c *Ctx) ruleTypedNilError(rule string) {
 			}
 			// result types of the innermost function
 			var res *types.Tuple = f.Obj.Type().(*types.Signature).Results()
+			fc := fc
 			for i := len(stack) - 1; i >= 0; i-- {
 				if lit, ok := stack[i].(*ast.FuncLit); ok {
 					if ls, ok := pk.TypesInfo.TypeOf(lit).(*types.Signature); ok {
 						res = ls.Results()
 					}
+					// a function literal has a control flow graph of its own
+					if litCFGs[lit] == nil {
+						lc := buildCFG(lit.Body)
+						lc.expand = fc.expand
+						litCFGs[lit] = lc
+					}
+					fc = litCFGs[lit]
 					break
 				}
 			}
